@@ -1,0 +1,22 @@
+// SPDX-FileCopyrightText: 2026 The Pion community <https://pion.ly>
+// SPDX-License-Identifier: MIT
+
+//go:build verif
+
+package verifhooks
+
+import (
+	"github.com/pion/interceptor/internal/cc"
+)
+
+// FeedbackAdapter re-exports cc.FeedbackAdapter.
+type FeedbackAdapter = cc.FeedbackAdapter
+
+// Acknowledgment re-exports cc.Acknowledgment.
+type Acknowledgment = cc.Acknowledgment
+
+// TwccExtensionAttributesKey re-exports cc.TwccExtensionAttributesKey.
+const TwccExtensionAttributesKey = cc.TwccExtensionAttributesKey
+
+// NewFeedbackAdapter re-exports cc.NewFeedbackAdapter.
+func NewFeedbackAdapter() *FeedbackAdapter { return cc.NewFeedbackAdapter() }
